@@ -159,6 +159,8 @@ PROPS.update({
                 builds=("plain", "tracing", "subscriber"), level="translation_validation"),
 })
 
+TIER = "quick"
+COQCHK = {}
 ALLOWED_AXIOMS = set()  # the development is axiom-free; anything printed is reported
 
 
@@ -263,9 +265,29 @@ def coq_audit(prop):
                 problems.append("axioms outside the allow-list: %s" % ", ".join(sorted(set(bad_ax))))
             if closed + (1 if axioms else 0) < n_print and not axioms:
                 problems.append("Properties/%s.v: only %d of %d assumptions reports are closed" % (prop, closed, n_print))
+        # the statements are pinned (coq/PINS.json, lib/pin.py): a weakened or removed theorem is a problem
+        try:
+            import pin
+            pins = json.load(open(V + "/coq/PINS.json"))
+            if prop not in pins:
+                problems.append("Properties/%s.v has no pinned statements (run lib/pin.py)" % prop)
+            elif pins[prop]["sha256"] != pin.digest(pf):
+                problems.append("Properties/%s.v: theorem statements differ from coq/PINS.json "
+                                "(after a deliberate change run lib/pin.py)" % prop)
+        except Exception as e:  # noqa
+            problems.append("statement pins could not be checked: %s" % e)
+        # thorough tier: the independent checker re-checks the compiled property file and everything it
+        # depends on, and lists the axioms it relies on
+        if TIER == "thorough" and not problems:
+            r = sh("cd %s/coq && coqchk -o -silent -Q theories CB CB.Properties.%s" % (V, prop), timeout=3000)
+            out = r.stdout + r.stderr
+            m = re.search(r"\* Axioms:\s*(.*?)\n\s*\n", out, re.S)
+            COQCHK[prop] = m.group(1).strip() if m else "coqchk gave no summary (exit %d)" % r.returncode
+            if r.returncode != 0 or not m or m.group(1).strip() != "<none>":
+                problems.append("coqchk: %s" % COQCHK[prop][:300])
     else:
         problems.append("Properties/%s.v is missing" % prop)
-    return dict(theorems=thms, obligations=len(thms), discharged=closed if not problems else 0,
+    return dict(theorems=thms, coqchk_axioms=COQCHK.get(prop), obligations=len(thms), discharged=closed if not problems else 0,
                 axioms=sorted(set(axioms)), problems=problems)
 
 
@@ -324,15 +346,22 @@ def enum_scripts(ops, depth):
 
 
 def run_model(scripts):
-    r = sh([DRIVER, "run"], inp="\n".join(scripts) + "\n", timeout=3600)
-    if r.returncode != 0:
-        raise Fail("model run failed: " + r.stderr[-2000:])
-    res = []
-    for line in r.stdout.splitlines():
-        tr, _, vs = line.partition(" || ")
-        res.append((tr.strip(), vs.split()))
-    if len(res) != len(scripts):
-        raise Fail("model printed %d traces for %d scripts" % (len(res), len(scripts)))
+    """model traces; linear operator trees (chain=1) run as nets of component models (NetDriver.v)"""
+    chain_ix = [k for k, sc in enumerate(scripts) if "chain=1" in sc]
+    plain_ix = [k for k, sc in enumerate(scripts) if "chain=1" not in sc]
+    res = [None] * len(scripts)
+    for ix, cmd in ((plain_ix, "run"), (chain_ix, "chainrun")):
+        if not ix:
+            continue
+        r = sh([DRIVER, cmd], inp="\n".join(scripts[k] for k in ix) + "\n", timeout=3600)
+        if r.returncode != 0:
+            raise Fail("model run failed: " + r.stderr[-2000:])
+        lines = r.stdout.splitlines()
+        if len(lines) != len(ix):
+            raise Fail("model printed %d traces for %d scripts" % (len(lines), len(ix)))
+        for k, line in zip(ix, lines):
+            tr, _, vs = line.partition(" || ")
+            res[k] = (tr.strip(), vs.split())
     return res
 
 
@@ -425,7 +454,17 @@ def suppressed_by(known, op, tok, classes):
 SKIP_CLASSES = []
 
 
-def violates(script, variant, prop_kinds, known):
+def conformant(script):
+    """every move enabled in the model's conformant environment (trees and late=1 scripts are exempt)"""
+    if "op=tree" in script or "late=1" in script:
+        return True
+    r = sh([DRIVER, "conf"], inp=script + "\n", timeout=600)
+    return r.returncode == 0 and r.stdout.strip() == "1"
+
+
+def violates(script, variant, prop_kinds, known, need_conf=False):
+    if need_conf and not conformant(script):
+        return [], ""
     tr = run_real([script], variant)[0]
     (vs, cl), = monitor([script], [tr])
     op = header_op(script)
@@ -441,13 +480,15 @@ def shrink(script, variant, prop_kinds, known, budget=150):
     bad, tr = violates(script, variant, prop_kinds, known)
     if not bad:
         return script, bad, tr
+    # candidates must stay conformant if the original is (a replay is a history the property quantifies over)
+    nc = conformant(script)
     i = 0
     tries = 0
     # first cut the tail after the violation cannot matter: drop from the end
     while len(moves) > 1 and tries < budget:
         cand = moves[:-1]
         s2 = "%s| %s" % (h, " ".join(cand))
-        b2, t2 = violates(s2, variant, prop_kinds, known)
+        b2, t2 = violates(s2, variant, prop_kinds, known, nc)
         tries += 1
         if b2:
             moves, bad, tr = cand, b2, t2
@@ -456,7 +497,7 @@ def shrink(script, variant, prop_kinds, known, budget=150):
     while i < len(moves) and tries < budget:
         cand = moves[:i] + moves[i + 1:]
         s2 = "%s| %s" % (h, " ".join(cand))
-        b2, t2 = violates(s2, variant, prop_kinds, known)
+        b2, t2 = violates(s2, variant, prop_kinds, known, nc)
         tries += 1
         if b2:
             moves, bad, tr = cand, b2, t2
@@ -553,6 +594,10 @@ def seq_check(prop, tier, seed, t0, spec=None):
         rt = sh([DRIVER, "gentree", str(seed + 3), str(n_rand // 4)] + (["pull"] if spec["trees"] == "pull" else []))
         tl = [l for l in rt.stdout.splitlines() if l.strip()]
         tl = corpus_scripts(["tree"]) + tl
+        if spec["trees"] == "std":
+            # linear pipelines: these have a model - the net of component models of Chain.v / NetDriver.v
+            rc = sh([DRIVER, "genchain", str(seed + 5), str(n_rand // 4)])
+            tl += [l for l in rc.stdout.splitlines() if l.strip()]
         n_tree = len(tl)
         scripts += tl
     extra = spec.get("extra_scripts")
@@ -575,7 +620,7 @@ def seq_check(prop, tier, seed, t0, spec=None):
         hist_ops[op] = hist_ops.get(op, 0) + 1
         if nontrivial(rt):
             distinct.add(op + "|" + rt)
-        if mt != rt and op != "tree":
+        if mt != rt and (op != "tree" or "chain=1" in s):
             mismatches.append((s, mt, rt))
         if any(k in cl for k in spec.get("skip_classes", [])) or "late=1" in s \
                 or any(hh in s for hh in spec.get("skip_headers", [])):
@@ -648,6 +693,7 @@ def seq_check(prop, tier, seed, t0, spec=None):
         trusted_base=TRUSTED_BASE,
         theorems=audit["theorems"],
         axioms=audit["axioms"],
+        coqchk_axioms=audit.get("coqchk_axioms"),
         audit_problems=audit["problems"],
         evaluations=len(scripts),
         distinct_nontrivial=len(distinct),
@@ -969,6 +1015,8 @@ def main(argv):
     ap.add_argument("--replay")
     ap.add_argument("--seed", type=int, default=int(os.environ.get("VERIF_SEED", "1")))
     a = ap.parse_args(argv)
+    global TIER
+    TIER = a.tier
     t0 = time.time()
     try:
         if a.replay:
